@@ -1,6 +1,7 @@
 package main
 
 import (
+	"os"
 	"fmt"
 	"go/types"
 	"sort"
@@ -80,6 +81,9 @@ func (p *Program) verifyFunc(key string, safetyOnly bool) *FuncResult {
 	e.prov = newProvCtx(con)
 	defer func() {
 		if r := recover(); r != nil {
+			if os.Getenv("JDVC_PANIC") != "" {
+				panic(r)
+			}
 			res.Errors = append(res.Errors, fmt.Sprintf("engine panic: %v", r))
 		}
 		res.Obls = e.obls
@@ -240,6 +244,38 @@ func (p *Program) verifyFunc(key string, safetyOnly bool) *FuncResult {
 			}
 			if nm := fn.Signature.Results().At(i).Name(); nm != "" && nm != "_" {
 				renv.vars[nm] = v
+			}
+		}
+		// O2: results declared fresh must be built from storage allocated in this activation
+		for _, fc := range []*Contract{icon, con} {
+			if fc == nil {
+				continue
+			}
+			for _, f := range fc.Fresh {
+				if f != "ret0" && f != "ret" {
+					continue
+				}
+				if len(rp.vals) == 0 {
+					continue
+				}
+				v := rp.vals[0]
+				own := "fresh"
+				if (v.K == vSlice || v.K == vMap) && v.R != nil {
+					own = v.R.Label
+				}
+				bad := ""
+				for _, lab := range strings.Split(own, "|") {
+					pl := plainLabel(lab)
+					if strings.HasPrefix(pl, "param:") || pl == "global" {
+						bad = lab
+					}
+				}
+				goal := True
+				if bad != "" {
+					goal = False
+				}
+				e.oblige("fresh", fmt.Sprintf("%s#fresh(ret0)@%s", key, e.posStr(rp.pos)), rp.pos, rp.pc, goal,
+					"the result's own storage is allocated in this activation (declared fresh); label: "+own)
 			}
 		}
 		for _, en := range enss {
